@@ -3031,6 +3031,12 @@ func (l *channelLink) processRemoteAdds(fwdPkg *channeldb.FwdPkg) {
 	// settle/fail update.
 	unackedAdds := make([]*lnwire.UpdateAddHTLC, 0, len(fwdPkg.Adds))
 
+	// addIndexes holds, for each of the unackedAdds, its index within the
+	// forwarding package. The source reference and the forward filter of
+	// the package are keyed by that index, so it must not shift when ADDs
+	// that were already acked are skipped.
+	addIndexes := make([]uint16, 0, len(fwdPkg.Adds))
+
 	for i, update := range fwdPkg.Adds {
 		// If this index is already found in the ack filter, the
 		// response to this forwarding decision has already been
@@ -3060,6 +3066,7 @@ func (l *channelLink) processRemoteAdds(fwdPkg *channeldb.FwdPkg) {
 
 			decodeReqs = append(decodeReqs, req)
 			unackedAdds = append(unackedAdds, msg)
+			addIndexes = append(addIndexes, uint16(i))
 		}
 	}
 
@@ -3083,7 +3090,7 @@ func (l *channelLink) processRemoteAdds(fwdPkg *channeldb.FwdPkg) {
 	var switchPackets []*htlcPacket
 
 	for i, update := range unackedAdds {
-		idx := uint16(i)
+		idx := addIndexes[i]
 		sourceRef := fwdPkg.SourceRef(idx)
 		add := *update
 
